@@ -135,7 +135,7 @@ package handler
 
 // the protected handler runs only for a token the parser accepted and that is Valid with map claims; everything else gets 401
 //@ func Authorize closure 1
-//@   property C18
+//@   property C18 C04
 //@   ghost at after ParseToken#0: pe = ret1
 //@   ghost at after ParseToken#0: tk = ret0
 //@   ghost at after ParseToken#0: tv = ret0.Valid
@@ -144,11 +144,15 @@ package handler
 // and the handler is served under the context that carries them all
 //@   call WithValue#*: assert arg_parent == ctx && arg_key == k && arg_val == v
 //@   call WithContext#0: assert arg_ctx == ctx && arg_recv == r
+// ... which still takes its deadline and cancellation from the request's own context (the timeout middleware's): claims are added
+// on top of it, it is not detached
+//@   ghost at after Context#0: c0 = ret
+//@   call WithContext#0: assert ctxBase[arg_ctx] == ctxBase[c0]
 //@   ensures (served == old(served) + 1 && unauths == old(unauths)) || (served == old(served) && unauths == old(unauths) + 1)
 //@   ensures implies(served == old(served) + 1, pe == nil && tk != nil && tv)
 //@   ensures_panic served == old(served) + 1 && pe == nil && tk != nil && tv
 //@   loop 0: modifies nothing
-//@   loop 0: invariant true
+//@   loop 0: invariant ctxBase[ctx] == ctxBase[c0]
 
 // strict content security
 //@ func handleVerificationFailure
